@@ -41,7 +41,7 @@ var longLivedUses = map[vh.Cfg]int{}
 func longLivedPlenc(cfg vh.Cfg) *plenc.Plenc {
 	longLivedUses[cfg]++
 	p, ok := longLived[cfg]
-	if !ok || longLivedUses[cfg]%4000 == 0 {
+	if !ok || longLivedUses[cfg]%1500 == 0 {
 		p = vh.NewPlenc(cfg)
 		longLived[cfg] = p
 	}
